@@ -43,7 +43,14 @@ pub fn mentions_st(s: &Statement, name: &str) -> bool {
 
 // ---------------------------------------------------------------- renaming of free occurrences
 
-fn ren_args(a: cs::Arguments, from: &str, to: &str) -> cs::Arguments {
+/// a (co)variable is identified by name and id
+type Key = (String, usize);
+
+fn is(i: &cs::Identifier, k: &Key) -> bool {
+    i.name == k.0 && i.id == k.1
+}
+
+fn ren_args(a: cs::Arguments, from: &Key, to: &Key) -> cs::Arguments {
     cs::Arguments {
         entries: a
             .entries
@@ -56,15 +63,16 @@ fn ren_args(a: cs::Arguments, from: &str, to: &str) -> cs::Arguments {
     }
 }
 
-fn ren_rc<T: cs::terms::Chi>(t: Rc<Term<T>>, from: &str, to: &str) -> Rc<Term<T>> {
+fn ren_rc<T: cs::terms::Chi>(t: Rc<Term<T>>, from: &Key, to: &Key) -> Rc<Term<T>> {
     Rc::new(ren_tm(Rc::unwrap_or_clone(t), from, to))
 }
 
-fn ren_tm<T: cs::terms::Chi>(t: Term<T>, from: &str, to: &str) -> Term<T> {
+fn ren_tm<T: cs::terms::Chi>(t: Term<T>, from: &Key, to: &Key) -> Term<T> {
     match t {
         Term::XVar(mut v) => {
-            if v.var.name == from {
-                v.var.name = to.to_string();
+            if is(&v.var, from) {
+                v.var.name = to.0.clone();
+                v.var.id = to.1;
             }
             Term::XVar(v)
         }
@@ -75,7 +83,7 @@ fn ren_tm<T: cs::terms::Chi>(t: Term<T>, from: &str, to: &str) -> Term<T> {
             Term::Op(o)
         }
         Term::Mu(mut m) => {
-            if m.variable.name != from {
+            if !is(&m.variable, from) {
                 m.statement = Rc::new(ren_st(Rc::unwrap_or_clone(m.statement), from, to));
             }
             Term::Mu(m)
@@ -89,7 +97,7 @@ fn ren_tm<T: cs::terms::Chi>(t: Term<T>, from: &str, to: &str) -> Term<T> {
                 .clauses
                 .into_iter()
                 .map(|mut cl| {
-                    if !cl.context.bindings.iter().any(|b| b.var.name == from) {
+                    if !cl.context.bindings.iter().any(|b| is(&b.var, from)) {
                         cl.body = Rc::new(ren_st(Rc::unwrap_or_clone(cl.body), from, to));
                     }
                     cl
@@ -100,7 +108,7 @@ fn ren_tm<T: cs::terms::Chi>(t: Term<T>, from: &str, to: &str) -> Term<T> {
     }
 }
 
-fn ren_st(s: Statement, from: &str, to: &str) -> Statement {
+fn ren_st(s: Statement, from: &Key, to: &Key) -> Statement {
     match s {
         Statement::Cut(mut c) => {
             c.producer = ren_rc(c.producer, from, to);
@@ -135,6 +143,10 @@ fn ren_st(s: Statement, from: &str, to: &str) -> Statement {
 pub struct Shadow<'r> {
     pub rng: &'r mut Rng,
     pub applied: u64,
+    /// next non-zero id for binders that are numbered by hand (hand-built programs may mix
+    /// numbered and unnumbered binders)
+    pub next_id: usize,
+    pub numbered: u64,
 }
 
 /// names in scope with their kind (true = covariable)
@@ -154,8 +166,15 @@ impl<'r> Shadow<'r> {
         // a producer mu binds a covariable, a consumer mu (mu-tilde) binds a variable
         let covar = m.prdcns.is_prd();
         let mut body = Rc::unwrap_or_clone(m.statement);
-        if let Some(new) = self.candidate(scope, covar, &m.variable.name, &body, &[]) {
-            body = ren_st(body, &m.variable.name, &new);
+        if m.variable.id == 0 && self.rng.chance(1, 5) {
+            // a binder numbered by hand: same name, a non-zero id of its own
+            let id = self.next_id;
+            self.next_id += 1;
+            body = ren_st(body, &(m.variable.name.clone(), 0), &(m.variable.name.clone(), id));
+            m.variable.id = id;
+            self.numbered += 1;
+        } else if let Some(new) = self.candidate(scope, covar, &m.variable.name, &body, &[]) {
+            body = ren_st(body, &(m.variable.name.clone(), m.variable.id), &(new.clone(), m.variable.id));
             m.variable.name = new;
             self.applied += 1;
         }
@@ -175,7 +194,8 @@ impl<'r> Shadow<'r> {
                     let own = cl.context.bindings[i].var.name.clone();
                     let others: Vec<String> = cl.context.bindings.iter().map(|b| b.var.name.clone()).collect();
                     if let Some(new) = self.candidate(scope, covar, &own, &body, &others) {
-                        body = ren_st(body, &own, &new);
+                        let id = cl.context.bindings[i].var.id;
+                        body = ren_st(body, &(own.clone(), id), &(new.clone(), id));
                         cl.context.bindings[i].var.name = new;
                         self.applied += 1;
                     }
@@ -261,7 +281,7 @@ impl<'r> Shadow<'r> {
 /// variant of a (not yet uniquified) Core program with shadowing binders; returns the number of
 /// binders renamed
 pub fn introduce(p: &cs::Prog, rng: &mut Rng) -> (cs::Prog, u64) {
-    let mut sh = Shadow { rng, applied: 0 };
+    let mut sh = Shadow { rng, applied: 0, next_id: p.max_id + 1, numbered: 0 };
     let mut q = p.clone();
     q.defs = q
         .defs
@@ -272,5 +292,6 @@ pub fn introduce(p: &cs::Prog, rng: &mut Rng) -> (cs::Prog, u64) {
             d
         })
         .collect();
-    (q, sh.applied)
+    q.max_id = q.max_id.max(sh.next_id - 1);
+    (q, sh.applied + sh.numbered)
 }
